@@ -156,6 +156,62 @@ def hand_sequential(x: fp.Real, y: fp.Real):
     with fp.IEEEContext(4, 9, fp.RM.RTN):
         c = b - a
     return (a, b, c)''',
+    'hand_nested_rne': '''@fp.fpy
+def hand_nested_rne(x: fp.Real, y: fp.Real):
+    with fp.IEEEContext(4, 8, fp.RM.RTZ):
+        a = x / y
+        with fp.IEEEContext(5, 10):
+            b = a / y + x
+            with fp.IEEEContext(4, 9, fp.RM.RTP):
+                c = b / fp.round(3)
+                with fp.IEEEContext(4, 8):
+                    return (a, b, c, c / y)''',
+    'hand_nested_rne2': '''@fp.fpy
+def hand_nested_rne2(x: fp.Real, y: fp.Real):
+    with fp.IEEEContext(5, 9, fp.RM.RTN):
+        if x > y:
+            t = x / fp.round(3)
+        else:
+            t = y / fp.round(3)
+        with fp.IEEEContext(5, 9):
+            return t * t / fp.round(5)''',
+    'hand_range_step': '''@fp.fpy
+def hand_range_step(x: fp.Real, y: fp.Real):
+    with fp.IEEEContext(5, 11):
+        acc = fp.round(0)
+        for i in range(0, 5, 2):
+            acc = acc * fp.round(2) + i + x
+        for j in range(1, 8, 3):
+            acc = acc + j * y
+        return acc''',
+    'hand_nested_tuple': '''@fp.fpy
+def hand_nested_tuple(x: fp.Real, y: fp.Real):
+    with fp.IEEEContext(5, 11):
+        t = ((x, x + fp.round(1)), (y + fp.round(2), y + fp.round(3)))
+        (a, b), (c, d) = t
+        return (a * fp.round(2) + b, c * fp.round(3) + d, b - c)''',
+    'hand_comp_tuple': '''@fp.fpy
+def hand_comp_tuple(x: fp.Real, y: fp.Real, xs: list[fp.Real]):
+    with fp.IEEEContext(5, 11):
+        u = sum([a * fp.round(2) + b for a, b in zip(xs, xs)])
+        v = sum([i * x + e for i, e in enumerate(xs)])
+        acc = y
+        for a, b in zip(xs, xs):
+            acc = acc * fp.round(0.5) + a - b * x
+        return (u, v, acc)''',
+    'hand_comp_multi': '''@fp.fpy
+def hand_comp_multi(x: fp.Real, y: fp.Real, xs: list[fp.Real]):
+    with fp.IEEEContext(5, 11):
+        u = sum([a * x + b for a in xs for b in xs])
+        w = sum([a + b * y - c for a in xs for b in xs for c in xs])
+        return (u, w)''',
+    'hand_target_shadow': '''@fp.fpy
+def hand_target_shadow(x: fp.Real, y: fp.Real, xs: list[fp.Real]):
+    with fp.IEEEContext(5, 11):
+        acc = fp.round(0)
+        for x in xs:
+            acc = acc + x
+        return acc + x * y''',
     'hand_whole': '''@fp.fpy
 def hand_whole(x: fp.Real, y: fp.Real):
     with fp.IEEEContext(4, 8):
@@ -248,7 +304,7 @@ def record(job):
         from titanfp.arithmetic.mpmf import Interpreter
         for name, f in funcs.items():
             src = srcs[name]
-            lists = 'xs:' in src
+            lists = 'xs:' in src.split('def ' + name)[1].split('\n')[0]
             if lists:
                 for arg in f.ast.args:
                     if isinstance(arg.type, ListTypeAnn):
@@ -349,7 +405,9 @@ def run(tier: str) -> int:
             stats['titanfp-overflow-under-a-directed-mode-not-judged'] += 1
             continue
         key = {'clause': clause, 'kind': p['kind']}
-        if p['kind'] in ('titanfp', 'reread') and p['shape']:
+        if p['kind'] in ('titanfp', 'reread') and p['name'] == 'hand_target_shadow':
+            key['shape'] = 'loop-target-shadows-a-variable-read-after-the-loop'
+        elif p['kind'] in ('titanfp', 'reread') and p['shape']:
             key['shape'] = 'operations-after-a-with-block'
         rep.mismatch(key, {'program': p['src'], 'kind': p['kind'], 'input': p['inputs'][idx - 1], 'clause': clause, 'machine_error': merr,
                            'core': p['core']})
